@@ -4,6 +4,7 @@
   from the real implementation and diffs them key by key.
 -/
 import EvalFilter.Model.Api
+import EvalFilter.Model.WF
 import EvalFilter.Spec.Oracle
 
 open EvalFilter
@@ -218,6 +219,12 @@ def runCase (c : Sexp) : String := Id.run do
       out := out ++ " rawfns=" ++ showFuncs (p.raw.funcs.map (fun f => ⟨f.name, f.params, encodeAll f.code⟩))
       out := out ++ " main=" ++ hexOfBytes p.machine.main
       out := out ++ " fns=" ++ showFuncs p.machine.funcs
+    if shows.contains "wf" then
+      let isStr := p.raw.consts.map (fun v => v.isType .STRING)
+      let w1 := WF.check isStr (encodeAll p.raw.main) (p.raw.funcs.map (fun f => encodeAll f.code))
+      let w2 := WF.check isStr p.machine.main (p.machine.funcs.map (·.code))
+      let sh := fun (w : Option (Nat × WF.Bad)) => match w with | none => "ok" | some (k, b) => s!"bad:body{k}:" ++ b.show
+      out := out ++ " wfraw=" ++ sh w1 ++ " wfopt=" ++ sh w2
     let mut st : VM.RunSt := { env := env }
     let mut i := 0
     for r in runs do
@@ -237,12 +244,29 @@ def runCase (c : Sexp) : String := Id.run do
       i := i + 1
     return out
 
+/-- `(wf ID (consts 0 1 …) (main #hex) (fn #hex) …)`: run the verifier on the bytes the implementation
+    handed out; the hex atoms are raw bytes -/
+def rawBytes (s : Sexp) : List UInt8 :=
+  match s with
+  | .atom a => (match a.toList with | '#' :: h => bytesOfHex h | _ => [])
+  | _ => []
+
+def runWf (c : Sexp) : String :=
+  let id := match c.args with | .atom i :: _ => i | _ => "?"
+  let consts := match c.find "consts" with | some s => s.args.map (fun a => a.nat == 1) | none => []
+  let main := match c.find "main" with | some s => rawBytes (s.args.headD (.atom "")) | none => []
+  let fns := (c.args.filter (fun x => x.tag == "fn")).map (fun s => rawBytes (s.args.headD (.atom "")))
+  match WF.check consts main fns with
+  | none => id ++ " wfimpl=ok"
+  | some (k, b) => id ++ s!" wfimpl=bad:body{k}:" ++ b.show
+
 def runLine (line : String) : String :=
   match parseLine line with
   | none => "? bad-line"
   | some c =>
     match c.tag with
     | "case" => runCase c
+    | "wf" => runWf c
     | "oracle" => Spec.Oracle.run (c.args.map (fun a => match a with | .atom s => s | _ => ""))
     | _ => "? bad-op"
 
